@@ -41,6 +41,8 @@ type Draw struct {
 	Bits int    `json:"bits,omitempty"`
 	N    int    `json:"n,omitempty"` // bytes: count
 	vars []*Term
+
+	Unsigned bool `json:"unsigned,omitempty"`
 }
 
 type Violation struct {
@@ -121,6 +123,8 @@ type Exec struct {
 	oneShots          int
 	oneShotLimit      int
 	inModel           int // >0 while a //verif:model function runs: its draws are solver-side only
+	specMode          bool // speculative evaluation of a pure branch side (if-conversion)
+	noIfConv          bool
 }
 
 type workItem struct {
@@ -301,6 +305,9 @@ func (ex *Exec) branch(c *Term) bool {
 	if c.isConst {
 		return c.u == 1
 	}
+	if ex.specMode {
+		panic(specAbort{})
+	}
 	nc := ex.tt.Not(c)
 	// already decided syntactically by the path condition
 	if ex.pcSet[c] {
@@ -393,6 +400,9 @@ func (ex *Exec) concretize(t *Term, what string) *Term {
 	for {
 		if t.isConst {
 			return t
+		}
+		if ex.specMode {
+			panic(specAbort{})
 		}
 		idx := len(ex.trace)
 		if idx < len(ex.prefix) {
@@ -598,7 +608,7 @@ func (ex *Exec) newSymInt(label string, t types.Type, record bool) *Term {
 	}
 	if record && ex.inModel == 0 {
 		b := t.Underlying().(*types.Basic)
-		ex.draws = append(ex.draws, Draw{Name: name, Kind: "int", Bits: basicWidth(b), vars: []*Term{v}})
+		ex.draws = append(ex.draws, Draw{Name: name, Kind: "int", Bits: basicWidth(b), Unsigned: !isSigned(t), vars: []*Term{v}})
 	}
 	return v
 }
